@@ -345,6 +345,10 @@ def translate(cfg, outdir):
     h.append("static inline void* vf_new_array(size_t n, size_t sz) { void* p = calloc(n, sz); __CPROVER_assume(p != 0); return p; }")
     for cn, ct in sorted(em.globals.items()):
         h.append("extern %s %s;" % (ct, cn))
+        if cn in const_init:
+            # value of the compile-time constant as found in the source (the verifier treats statics as nondet:
+            # contracts pin it with `requires X == VFI_X`)
+            h.append("#define VFI_%s (%s)" % (cn, const_init[cn]))
     news = []
     for cn, (tag, ctor, params) in sorted(em.news.items()):
         if ctor in em.unit_names:
